@@ -6,6 +6,8 @@ From GoCarProofs Require Import BytesFacts VarintFacts IndexKv IndexSort IndexCo
 Ltac Zify.zify_post_hook ::= Z.div_mod_to_equations.
 
 (* ---- sort.Search ------------------------------------------------------------------------ *)
+(* 2^70: the 70 iterations of the model's loop suffice for every n below it (Go: n is an int) *)
+Definition search_cap : N := 1180591620717411303424.
 Section Search.
   Variable f : N -> bool.
   Variable n : N.
@@ -40,13 +42,14 @@ Section Search.
       + assert (i = j) by lia. subst j. split; [lia|]. split; assumption.
   Qed.
 
-  Lemma sort_search_spec : n < 2 ^ 70 ->
+  Lemma sort_search_spec : n < search_cap ->
     sort_search n f <= n /\
     (forall k, k < sort_search n f -> f k = false) /\
     (forall k, sort_search n f <= k -> k < n -> f k = true).
   Proof.
     intros Hn. unfold sort_search.
-    assert (Hsz : n - 0 < 2 ^ N.of_nat 70) by (change (N.of_nat 70) with 70; rewrite N.sub_0_r; exact Hn).
+    assert (Hsz : n - 0 < 2 ^ N.of_nat 70).
+    { change (2 ^ N.of_nat 70) with search_cap. rewrite N.sub_0_r. exact Hn. }
     destruct (search_f_spec 70 0 n (N.le_0_l n) (N.le_refl n) Hsz) as (R1 & R2 & R3).
     - intros k Hk. lia.
     - intros k Hk1 Hk2. lia.
@@ -123,17 +126,43 @@ Proof.
   - destruct i; cbn [skipn]; [constructor; assumption|apply IH].
 Qed.
 
-(* L6 *)
-Theorem swi_getall_sorted w l d :
-  8 <= w -> all_width w l -> offs_ok l -> digest_sorted l -> N.of_nat (length l) < 2 ^ 70 ->
-  swi_getall (w, compact l) d = map r_off (filter (has_digest d) l).
+Lemma in_firstn_skipn {A} n : forall (l : list A) x,
+  In x (firstn n l) -> exists k t, (k < n)%nat /\ skipn k l = x :: t.
 Proof.
-  intros Hw Hl Ho Hs Hn. unfold swi_getall. cbn [snd].
-  set (b := (w, compact l)).
-  set (f := fun i => bytes_leb d (swi_digest_at b i)).
-  assert (Hcount : swi_count b = N.of_nat (length l)) by (apply swi_count_compact; assumption).
+  induction n as [|n IH]; intros l x H; [destruct H|]. destruct l as [|a l]; [destruct H|].
+  cbn [firstn] in H. destruct H as [->|H].
+  - exists 0%nat, l. split; [lia|reflexivity].
+  - destruct (IH l x H) as (k & t & Hk & Hs). exists (S k), t. split; [lia|exact Hs].
+Qed.
+
+Lemma in_skipn_skipn {A} n : forall (l : list A) x,
+  In x (skipn n l) -> exists k t, (n <= k)%nat /\ skipn k l = x :: t.
+Proof.
+  induction n as [|n IH]; intros l x H.
+  - cbn [skipn] in H. apply in_split in H. destruct H as (u & v & ->).
+    exists (length u), v. split; [lia|]. rewrite skipn_app, skipn_all, Nat.sub_diag. reflexivity.
+  - destruct l as [|a l]; [destruct H|]. cbn [skipn] in H.
+    destruct (IH l x H) as (k & t & Hk & Hs). exists (S k), t. split; [lia|exact Hs].
+Qed.
+
+Lemma filter_all_false {A} (p : A -> bool) (l : list A) :
+  (forall x, In x l -> p x = false) -> filter p l = [].
+Proof.
+  induction l as [|x t IH]; intros H; [reflexivity|]. cbn [filter].
+  rewrite (H x) by (left; reflexivity). apply IH. intros y Hy. apply H. right. exact Hy.
+Qed.
+
+(* L6 *)
+Lemma swi_getall_sorted_aux w l d b f :
+  b = (w, compact l) -> f = (fun i => bytes_leb d (swi_digest_at b i)) ->
+  8 <= w -> all_width w l -> offs_ok l -> digest_sorted l -> N.of_nat (length l) < search_cap ->
+  swi_scan_eq (S (length (compact l))) b d (sort_search (swi_count b) f)
+  = map r_off (filter (has_digest d) l).
+Proof.
+  intros Eb Ef Hw Hl Ho Hs Hn.
+  assert (Hcount : swi_count b = N.of_nat (length l)) by (rewrite Eb; apply swi_count_compact; assumption).
   assert (Hf : forall i x t, skipn i l = x :: t -> f (N.of_nat i) = bytes_leb d (r_digest x)).
-  { intros i x t Hi. unfold f, b. rewrite (swi_digest_at_compact w l i x t Hl Hi). reflexivity. }
+  { intros i x t Hi. rewrite Ef, Eb. rewrite (swi_digest_at_compact w l i x t Hl Hi). reflexivity. }
   assert (Hmono : forall a c, a <= c -> c < swi_count b -> f a = true -> f c = true).
   { intros a c Hac Hc Fa. rewrite Hcount in Hc.
     destruct (skipn_exists l (N.to_nat a) ltac:(lia)) as (x & t & Hx).
@@ -143,38 +172,32 @@ Proof.
     pose proof (sorted_nth_le l Hs (N.to_nat a) (N.to_nat c) x y t u ltac:(lia) Hx Hy) as Hxy.
     unfold digest_le in Hxy. eapply bytes_leb_trans; eauto. }
   destruct (sort_search_spec f (swi_count b) Hmono ltac:(rewrite Hcount; exact Hn)) as (R1 & R2 & R3).
-  set (idx := sort_search (swi_count b) f) in *.
+  remember (sort_search (swi_count b) f) as idx eqn:Eidx. clear Eidx.
   rewrite Hcount in R1.
-  rewrite <- (Nnat.N2Nat.id idx).
-  rewrite (swi_scan_eq_suffix w l d Hw Hl Ho (skipn (N.to_nat idx) l) (N.to_nat idx)); try reflexivity.
+  rewrite <- (Nnat.N2Nat.id idx). rewrite Eb.
+  rewrite (swi_scan_eq_suffix w l d Hw Hl Ho (skipn (N.to_nat idx) l) (N.to_nat idx) (S (length (compact l))) eq_refl).
   - (* the prefix contributes nothing *)
-    rewrite <- (firstn_skipn (N.to_nat idx) l) at 2. rewrite filter_app.
-    replace (filter (has_digest d) (firstn (N.to_nat idx) l)) with (@nil irec); [reflexivity|].
-    symmetry.
     assert (Hpre : forall x, In x (firstn (N.to_nat idx) l) -> has_digest d x = false).
-    { intros x Hx. apply In_nth with (d := x) in Hx. destruct Hx as (k & Hk & Hnth).
-      rewrite firstn_length in Hk.
-      assert (Hkl : (k < length l)%nat) by lia.
-      destruct (skipn_exists l k Hkl) as (y & t & Hy).
-      assert (Hyx : y = x).
-      { rewrite <- Hnth. rewrite nth_firstn_lt by lia.
-        rewrite <- (firstn_skipn k l) at 1. rewrite app_nth2; rewrite firstn_length; [|lia].
-        replace (k - Nat.min k (length l))%nat with 0%nat by lia. rewrite Hy. reflexivity. }
-      subst y. specialize (R2 (N.of_nat k) ltac:(lia)). rewrite (Hf _ _ _ Hy) in R2.
+    { intros x Hx. destruct (in_firstn_skipn _ _ _ Hx) as (k & t & Hk & Hy).
+      specialize (R2 (N.of_nat k) ltac:(lia)). rewrite (Hf _ _ _ Hy) in R2.
       unfold has_digest. apply bytes_eqb_false_ne. intros X. rewrite X, bytes_leb_refl in R2. discriminate. }
-    clear -Hpre. induction (firstn (N.to_nat idx) l) as [|x t IH]; [reflexivity|].
-    cbn [filter]. rewrite (Hpre x) by (left; reflexivity). apply IH. intros y Hy. apply Hpre. right. exact Hy.
+    pose proof (filter_all_false (has_digest d) (firstn (N.to_nat idx) l) Hpre) as Hnil.
+    transitivity (map r_off (filter (has_digest d) (firstn (N.to_nat idx) l ++ skipn (N.to_nat idx) l))).
+    + rewrite filter_app, Hnil. cbn [app]. reflexivity.
+    + rewrite firstn_skipn. reflexivity.
   - rewrite skipn_length. pose proof (length_compact_ge w l Hw Hl). lia.
   - apply digest_sorted_skipn. exact Hs.
-  - apply Forall_forall. intros x Hx. apply In_nth with (d := x) in Hx. destruct Hx as (k & Hk & Hnth).
-    rewrite skipn_length in Hk.
-    assert (Hkl : (N.to_nat idx + k < length l)%nat) by lia.
-    destruct (skipn_exists l (N.to_nat idx + k) Hkl) as (y & t & Hy).
-    assert (Hyx : y = x).
-    { rewrite <- Hnth. rewrite nth_skipn. rewrite <- (firstn_skipn (N.to_nat idx + k) l) at 1.
-      rewrite app_nth2; rewrite firstn_length; [|lia].
-      replace (N.to_nat idx + k - Nat.min (N.to_nat idx + k) (length l))%nat with 0%nat by lia.
-      rewrite Hy. reflexivity. }
-    subst y. specialize (R3 (N.of_nat (N.to_nat idx + k)) ltac:(lia) ltac:(rewrite Hcount; lia)).
+  - apply Forall_forall. intros x Hx. destruct (in_skipn_skipn _ _ _ Hx) as (k & t & Hk & Hy).
+    pose proof (skipn_cons_length _ _ _ _ Hy) as Hkl.
+    specialize (R3 (N.of_nat k) ltac:(lia) ltac:(rewrite Hcount; lia)).
     rewrite (Hf _ _ _ Hy) in R3. exact R3.
 Qed.
+
+Theorem swi_getall_sorted w l d :
+  8 <= w -> all_width w l -> offs_ok l -> digest_sorted l -> N.of_nat (length l) < search_cap ->
+  swi_getall (w, compact l) d = map r_off (filter (has_digest d) l).
+Proof.
+  intros Hw Hl Ho Hs Hn.
+  exact (swi_getall_sorted_aux w l d (w, compact l) _ eq_refl eq_refl Hw Hl Ho Hs Hn).
+Qed.
+
